@@ -13,6 +13,13 @@ CONSTANTS MaxPL, MaxN, NegLo, LenHi, MaxFiles, BASE, MAXI
 LenLo == 0 - NegLo
 
 Infos == UNION {[pl : 0 .. MaxPL, n : 0 .. MaxN, lens : [1 .. k -> LenLo .. LenHi]] : k \in 0 .. MaxFiles}
+\* (3) the parser's layout rule over ALL small raw dictionaries, hybrid ones (both "length" and "files") included:
+\*     what it accepts is well-formed; the variant that adds "length" to the sum of "files" is not (vacuity guard).
+RawDicts == [pl : 0 .. MaxPL, n : 0 .. MaxN, len : LenLo .. LenHi, files : UNION {[1 .. k -> LenLo .. LenHi] : k \in 0 .. 2}]
+ASSUME ParserSound(RawDicts, "files-win", MAXI)
+ASSUME ~ParserSound(RawDicts, "add", MAXI)
+ASSUME \E d \in RawDicts : Len(d.files) > 0 /\ d.len > 0 /\ CodeAccepts(d, "files-win", MAXI)   \* hybrids are accepted at all
+
 PP == [b |-> BASE, imax |-> ToLimbs(BASE, MAXI)]
 
 MCInit ==
